@@ -400,7 +400,10 @@ func vfNoKeywordRow(c vfCase) {
 func vfNexus(shapes []vfShape, syms, full, mixed, exclKeywords bool) {
 	n, L, mode, rot, cs := vfChoose(shapes, !mixed, full)
 	c := vfBuildPin(n, L, mode, syms, rot, cs, L > 11 && !full)
-	if exclKeywords {
+	// known finding C02-nexus-keyword-token: a residue run (or name) that spells a Nexus lexer keyword is
+	// tokenised as the keyword. When it is listed, exactly that input region is excluded here and
+	// demonstrated by K_C02_nexus_kwrow / K_C02_nexus_kwname.
+	if exclKeywords || verifKnown("C02-nexus-keyword-token") {
 		vfNoKeywordRow(c)
 	}
 	w := nexus.WriteAlignment(c.al)
@@ -692,10 +695,31 @@ func H_C02_names_punct() { vfNamesRT(nondetRange(fFasta, fStockholm), 2, false, 
 // outside: Stockholm names with [ ] ; = (covered, and failing, in H_C02_names_punct)
 func H_C02_names_punct_nostk() { vfNamesRT(nondetRange(fFasta, fStockholm), 2, false, true) }
 
-// H_C02_nexus_kwname: a sequence name that spells a Nexus lexer keyword (any case) does not survive the round trip.
+// K_C02_nexus_kwrow: demonstrates the known finding: a residue row that spells a Nexus lexer keyword does not survive the round trip.
+// bounds: 2 rows x L in {3,4,5}, letters of either family in row-uniform case, at least one row spelling a keyword
+//verif: known=C02-nexus-keyword-token expect=violation
+func K_C02_nexus_kwrow() {
+	n, L, mode, rot, cs := vfChoose([]vfShape{{2, 3}, {2, 4}, {2, 5}}, true, false)
+	c := vfBuildPin(n, L, mode, false, rot, cs, false)
+	isKw := false
+	for i := range c.orig {
+		for _, kw := range vfNexusKeywords {
+			if len(kw) == c.L && vfIsWordCI(c.orig[i], kw) {
+				isKw = true
+			}
+		}
+	}
+	assume(isKw)
+	got, err := nexus.NewParser(vfReader(nexus.WriteAlignment(c.al))).Parse()
+	verifReach("nexus keyword row")
+	vfSame(c, got, err)
+}
+
+// K_C02_nexus_kwname: demonstrates the known finding: a sequence name that spells a Nexus lexer keyword (any case) does not survive the round trip.
 // bounds: first name in {end, GAP, Data, matrix}, second name s1; 2 x 4 concrete nucleotide rows
 // outside: other names
-func H_C02_nexus_kwname() {
+//verif: known=C02-nexus-keyword-token expect=violation
+func K_C02_nexus_kwname() {
 	names := []string{vfPick2([]string{"end", "GAP", "Data", "matrix"}), "s1"}
 	rows := []string{"ACGT", "TTGA"}
 	al := align.NewAlign(align.NUCLEOTIDS)
@@ -739,6 +763,15 @@ func H_C02_lexer_words() {
 	}
 	orig := make([]uint8, L)
 	copy(orig, s)
+	// known finding C02-header-keyword-token: a residue row spelling the format's header keyword
+	// (CLUSTAL / STOCKHOLM, any case) is tokenised as that keyword
+	if verifKnown("C02-header-keyword-token") {
+		if f == 0 {
+			assume(!vfIsWordCI(orig, "CLUSTAL"))
+		} else {
+			assume(!vfIsWordCI(orig, "STOCKHOLM"))
+		}
+	}
 	if err := al.AddSequenceChar("s1", s, ""); err != nil {
 		panic("harness: cannot build alignment: " + err.Error())
 	}
@@ -752,5 +785,32 @@ func H_C02_lexer_words() {
 		got, err = stockholm.NewParser(vfReader(stockholm.WriteAlignment(al))).Parse()
 	}
 	verifReach("lexer words round trip")
+	vfSame(c, got, err)
+}
+
+// K_C02_header_keyword: demonstrates the known finding: the one-row alignments "CLUSTAL" (Clustal) and
+// "STOCKHOLM" (Stockholm) are not read back.
+// bounds: the two concrete rows, upper case
+//verif: known=C02-header-keyword-token expect=violation
+func K_C02_header_keyword() {
+	f := nondetRange(0, 1)
+	row := "CLUSTAL"
+	if f == 1 {
+		row = "STOCKHOLM"
+	}
+	al := align.NewAlign(align.UNKNOWN)
+	if err := al.AddSequence("s1", row, ""); err != nil {
+		panic("harness: cannot build alignment: " + err.Error())
+	}
+	al.AutoAlphabet()
+	c := vfCase{al: al, names: []string{"s1"}, orig: [][]uint8{[]uint8(row)}, L: len(row), mode: -1}
+	var got align.Alignment
+	var err error
+	if f == 0 {
+		got, err = clustal.NewParser(vfReader(clustal.WriteAlignment(al))).Parse()
+	} else {
+		got, err = stockholm.NewParser(vfReader(stockholm.WriteAlignment(al))).Parse()
+	}
+	verifReach("header keyword row")
 	vfSame(c, got, err)
 }
